@@ -13,7 +13,8 @@ from mc.faults import MemStore, LogicalClock, gunzip_all_members
 
 ID = 'C19'
 RULE = ('all words over P paths up to length n x maxHandles x pruneEvery x fault plan (none; EMFILE (also ENFILE) when >=k descriptors open, '
-        'k=1..3; every set of <=2 failing open() calls; one permanently failing path); both methods (gzip / plain); '
+        'k=1..3; every set of <=2 failing open() calls; one permanently failing path; the same with stale files of an earlier run at '
+        'the paths and after an earlier writer object of the same process); both methods (gzip / plain); '
         'non-trivial = an injected failure was hit while >=1 other descriptor was open; states = distinct executions')
 ASSUMPTIONS = [
     'the operating system is represented by an in-memory store: open fails only as injected; writes and closes never fail',
@@ -71,6 +72,12 @@ def execute(word, maxHandles, pruneEvery, plan, method=1):
     seam(hl, 'gzip')
     seam(hl, 'time')
     store = MemStore(plan)
+    if plan.get('stale'):
+        # files left at the same paths by an earlier (aborted) run: a new writer starts every file anew
+        import gzip as _gz
+        for p_ in sorted(set(word)):
+            junk = b'@stale\nNNNN\n+\n!!!!\n'
+            store.files[f'/mem/cell{p_}.fq.gz'] = bytearray(_gz.compress(junk) if method == 1 else junk)
 
     class _G:
         open = staticmethod(store.gzip_open)
@@ -83,6 +90,17 @@ def execute(word, maxHandles, pruneEvery, plan, method=1):
     viol = []
     raised = None
     try:
+        if plan.get('earlier_writer'):
+            # history: an earlier HandleLimiter object of the same process wrote the same paths and was closed; the store's
+            # fault plan only applies to the second writer
+            saved_plan, store.plan = store.plan, {}
+            first = hl.HandleLimiter(maxHandles=maxHandles, pruneEvery=pruneEvery, compressionLevel=1)
+            for i, p in enumerate(word):
+                first.write(f'/mem/cell{p}.fq.gz', f'@old{i}\nTTTT\n+\n####\n', method=method)
+            first.close()
+            store.plan = saved_plan
+            store.open_calls = 0
+            store.failures = []
         lim = hl.HandleLimiter(maxHandles=maxHandles, pruneEvery=pruneEvery, compressionLevel=1)
         for i, p in enumerate(word):
             path = f'/mem/cell{p}.fq.gz'
@@ -149,6 +167,11 @@ def plans_for(word, maxHandles, pruneEvery, method, acc_cb):
     for k in (1, 2, 3):
         plan = {'emfile_k': k}
         acc_cb(plan, *execute(word, maxHandles, pruneEvery, plan, method))
+    # histories: files of an earlier run at the same paths / an earlier writer object in the same process, without and with a budget
+    for extra in ({'stale': True}, {'earlier_writer': True}):
+        for base in ({}, {'emfile_k': 1}, {'emfile_k': 2}):
+            plan = dict(base, **extra)
+            acc_cb(plan, *execute(word, maxHandles, pruneEvery, plan, method))
     for p in range(P):
         plan = {'dead_paths': [f'/mem/cell{p}.fq.gz']}
         acc_cb(plan, *execute(word, maxHandles, pruneEvery, plan, method))
@@ -157,6 +180,8 @@ def plans_for(word, maxHandles, pruneEvery, method, acc_cb):
         plan1 = {'fail_calls': [i]}
         v1, info1 = execute(word, maxHandles, pruneEvery, plan1, method)
         acc_cb(plan1, v1, info1)
+        plan1s = {'fail_calls': [i], 'stale': True}
+        acc_cb(plan1s, *execute(word, maxHandles, pruneEvery, plan1s, method))
         # the same transient failure reported as the system-wide variant of "too many open files" (ENFILE)
         plan1b = {'fail_calls': [i], 'errno': errno.ENFILE}
         acc_cb(plan1b, *execute(word, maxHandles, pruneEvery, plan1b, method))
